@@ -69,6 +69,10 @@ def live_phase(ctx):
         fails.append(dict(f, why="replay memory shorter than the time the credential can still pass the time check: " + f["why"],
                           kind="purge-history"))
     mism += pm
+    sf = []
+    c05_live.straddle_phase(ctx, orc, sf, dist)
+    for f in sf:
+        fails.append(dict(f, why="replay memory shorter than the time the credential can still pass the time check: " + f["why"]))
     queued_across_expiry(ctx, orc, fails, dist)
     ctx.cov.setdefault("input_distribution", {}).update({"live-" + k: v for k, v in dist.items()})
     seen = set()
